@@ -28,6 +28,17 @@ if TYPE_CHECKING:
     from numpy.typing import ArrayLike, NDArray
 
 
+def _as_parameter_value(value: float | int | ArrayLike) -> float | NDArray[np.floating]:
+    """Python numbers become floats; arrays are kept, float16 / float32 promoted to
+    float64 (a narrow float would otherwise set the precision of tree evaluation)."""
+    if isinstance(value, (int, float)):
+        return float(value)
+    arr = np.asarray(value)
+    if arr.dtype.kind == "f" and arr.dtype.itemsize < 8:
+        arr = arr.astype(np.float64)
+    return arr
+
+
 class Parameter(Expression):
     """An updatable constant for optimization problems.
 
@@ -69,9 +80,7 @@ class Parameter(Expression):
             value: Initial value (default: 0.0).
         """
         self.name = name
-        self._value: float | NDArray[np.floating] = (
-            np.asarray(value) if not isinstance(value, (int, float)) else float(value)
-        )
+        self._value: float | NDArray[np.floating] = _as_parameter_value(value)
 
     @property
     def value(self) -> float | NDArray[np.floating]:
@@ -96,9 +105,7 @@ class Parameter(Expression):
             >>> price.value
             120.0
         """
-        new_value: float | NDArray[np.floating] = (
-            np.asarray(value) if not isinstance(value, (int, float)) else float(value)
-        )
+        new_value: float | NDArray[np.floating] = _as_parameter_value(value)
 
         # Check shape compatibility for arrays
         if isinstance(self._value, np.ndarray) and isinstance(new_value, np.ndarray):
